@@ -145,3 +145,18 @@ PROPS["C37"] = dict(
     outside="KBucketsTable::entry's bucket selection and per-bucket application of pending entries (the 256-bucket table cannot be built under CBMC: KBucketsTable::new alone runs out of memory; the index function is decided under C40); bucket capacities > 3 (K_VALUE = 20 in production); local-key exclusion (entry() returns None for distance 0)",
     stubs=[TRACING, WEBTIME], assumptions=[NOSHA, FORGET, "pre-state restricted to the representation invariant: distinct keys, first_connected_pos < len, pending key not stored, node list allocated with the bucket capacity (as KBucket::new does)"], hooks=[KADHOOK],
 )
+
+PROPS["C56"] = dict(
+    group="wire", files=["c56.rs"],
+    explanation=(
+        "Every method of libp2p_webrtc_utils::stream::state::State (through a cfg(libp2p_verif) mirror), driven in "
+        "exactly the call order Stream::{poll_read,poll_write,poll_close,poll_close_read} use, with symbolic I/O "
+        "readiness and symbolic inbound flags: (1) one operation from EVERY state value: no unreachable!/debug_assert "
+        "fires, barrier verdicts match the half-close status, BothClosed absorbing, ConnectionReset after reset; "
+        "(2) all operation/flag sequences of 4 (quick) / 6 (thorough) steps from Open against history-defined ghost "
+        "variables: reads only while the read half is open, writes only while the write half is open, after RESET "
+        "every operation fails with ConnectionReset."),
+    bounds="all 13 state values x 4 operations x symbolic readiness/flags (one step); sequences <= 4 / 6 operations from Open",
+    outside="Stream's own I/O (Framed data channel, prost decode, read_buffer handling, drop_notifier) — only the State calls Stream makes are modelled, in Stream's order; inbound FIN/STOP_SENDING arriving while the other half is mid-close is treated as don't-care (the code drops the flag; the property text is silent)",
+    stubs=[TRACING], assumptions=["the harness mirrors Stream's call protocol (read from stream.rs): barrier before every transition"], hooks=["hook: libp2p_webrtc_utils::verif_hooks (StateRepr mirror + Machine wrappers calling the private State methods)"],
+)
